@@ -1307,7 +1307,7 @@ Lemma threads_R P : NoDup (tids P) -> forall b s b' s',
   forall th, In th P -> thread_post th s s'.
 Proof.
   induction P as [|th0 P IH]; intros ND b s b' s' HR HC th Hin; [destruct Hin|].
-  simpl in HR. apply R_app in HR as (b1 & s1 & HR1 & HR2).
+  cbn [flat_map] in HR. apply R_app in HR as (b1 & s1 & HR1 & HR2).
   inversion ND as [|? ? Hnot ND']; subst.
   assert (Hne : forall th', In th' P -> th_tid th' <> th_tid th0).
   { intros th' H E. apply Hnot. unfold tids. rewrite <- E. apply in_map; auto. }
@@ -1337,9 +1337,6 @@ Proof.
   (* diagnostics *)
   assert (DD : m_dead s' = true -> m_diag s' = true).
   { intros D.
-    assert (HRall : exists b0, R bufsz true (proc_init_tr m ++ flat_map (thread_tr New m rho) P ++ proc_fini_tr m P) m0 b0 s')
-      by (destruct (run_R bufsz (proc_init_tr m ++ flat_map (thread_tr New m rho) P ++ proc_fini_tr m P) (Some (i, fk)) m0) as [b0 H0]; eauto).
-    clear HRall. (* re-establish from the pieces *)
     assert (D1 : m_dead s1 = true -> m_diag s1 = true).
     { eapply (R_dead_diag bufsz (proc_init_tr m)); [|exact HR1|discriminate].
       destruct m; simpl; fa; auto. }
@@ -1384,3 +1381,298 @@ Proof.
 Qed.
 
 End lift.
+
+Theorem C10_direct_all bufsz P rho : wf_program P -> C10_statement bufsz Direct P rho.
+Proof.
+  apply C10_from_threads. intros th b s b1 s1 H D C. eapply direct_thread_post; eauto.
+Qed.
+
+(* ------------------------------------------------------------------ OVNI_TMPDIR mode: the relocation under one fault *)
+
+Lemma flag_eqb_eq a b : flag_eqb a b = true <-> a = b.
+Proof. destruct a, b; simpl; split; congruence. Qed.
+
+Lemma existsb_flag_false f l : ~ In f l -> existsb (flag_eqb f) l = false.
+Proof.
+  intros H; destruct (existsb (flag_eqb f) l) eqn:E; auto.
+  apply existsb_exists in E as (x & Hx & E). apply flag_eqb_eq in E; subst; contradiction.
+Qed.
+Lemma existsb_flag_true f l : In f l -> existsb (flag_eqb f) l = true.
+Proof. intros H; apply existsb_exists; exists f; split; auto. apply flag_eqb_eq; auto. Qed.
+
+Lemma setfl_notin fl t l v t' f : ~ In f l -> setfl fl t l v t' f = fl t' f.
+Proof.
+  intros H; unfold setfl; destruct l; auto. rewrite existsb_flag_false by auto. rewrite andb_false_r; auto.
+Qed.
+Lemma setfl_in fl t l v f : In f l -> setfl fl t l v t f = v.
+Proof.
+  intros H; unfold setfl; destruct l; [destruct H|]. rewrite Z.eqb_refl, existsb_flag_true by auto. reflexivity.
+Qed.
+
+(* a flag no instruction of the list mentions keeps its value, whatever fails *)
+Definition nomention (f : flag) (i : instr) : Prop :=
+  ~ In f (i_set i) /\ ~ In f (i_unset i) /\ ~ In f (i_clear i).
+
+Lemma step_flag_keep bufsz fo i s t f : nomention f i -> m_fl (step bufsz fo i s) t f = m_fl s t f.
+Proof.
+  intros (A & B & C); unfold step; destruct fo as [fk|]; [destruct (is_failure fk (i_op i))|]; simpl;
+    rewrite ?setfl_notin; auto.
+Qed.
+
+Lemma R_flag_keep bufsz l t f : Forall (nomention f) l -> forall b s b' s',
+  R bufsz b l s b' s' -> m_fl s' t f = m_fl s t f.
+Proof.
+  induction l as [|i l IH]; intros HF b s b' s' H; inversion H; subst; clear H; auto; inversion HF; subst.
+  - with_R ltac:(fun Hr => eapply IH; eauto).
+  - with_R ltac:(fun Hr => rewrite (IH ltac:(assumption) _ _ _ _ Hr)). apply step_flag_keep; auto.
+  - with_R ltac:(fun Hr => rewrite (IH ltac:(assumption) _ _ _ _ Hr)). apply step_flag_keep; auto.
+Qed.
+
+(* no instruction of the relocation dies *)
+Lemma R_nodie bufsz l : Forall (fun i => i_die i = false) l -> forall b s b' s',
+  R bufsz b l s b' s' -> m_dead s = false -> m_dead s' = false.
+Proof.
+  induction l as [|i l IH]; intros HF b s b' s' H D; inversion H; subst; clear H; auto; inversion HF; subst.
+  - with_R ltac:(fun Hr => eapply IH; eauto).
+  - with_R ltac:(fun Hr => eapply IH; eauto).
+  - with_R ltac:(fun Hr => eapply IH; eauto). unfold step. destruct (is_failure fk (i_op i)); simpl; auto.
+Qed.
+
+(* once false, a flag that nothing sets stays false *)
+Lemma R_flag_stays_false bufsz l t f : Forall (fun i => ~ In f (i_set i)) l -> forall b s b' s',
+  R bufsz b l s b' s' -> m_fl s t f = false -> m_fl s' t f = false.
+Proof.
+  assert (K : forall fl t0 ls lu, ~ In f ls -> fl t f = false ->
+              setfl (setfl fl t0 ls true) t0 lu false t f = false).
+  { intros fl t0 ls lu Hn Hf. unfold setfl at 1. destruct lu; [rewrite setfl_notin; auto|].
+    destruct ((t =? t0) && existsb (flag_eqb f) (f0 :: lu)); auto. rewrite setfl_notin; auto. }
+  induction l as [|i l IH]; intros HF b s b' s' H Hf; inversion H; subst; clear H; auto; inversion HF; subst.
+  - with_R ltac:(fun Hr => eapply IH; eauto).
+  - with_R ltac:(fun Hr => eapply IH; eauto). simpl. apply K; auto.
+  - with_R ltac:(fun Hr => eapply IH; eauto). unfold step. destruct (is_failure fk (i_op i)); simpl.
+    + unfold setfl. destruct (i_clear i); auto. destruct (_ && _); auto.
+    + apply K; auto.
+Qed.
+
+(* everything guarded by a false flag is skipped *)
+Lemma guard_false fl g f : In f g -> fl f = false -> guard_ok fl g = false.
+Proof.
+  intros Hin Hf; unfold guard_ok. destruct (forallb fl g) eqn:E; auto.
+  rewrite forallb_forall in E. rewrite (E f Hin) in Hf; discriminate.
+Qed.
+
+Lemma R_all_skipped bufsz l t s : Forall (fun i => i_tid i = t /\ exists f, In f (i_guard i) /\ m_fl s t f = false) l ->
+  forall b b' s', R bufsz b l s b' s' -> s' = s /\ b' = b.
+Proof.
+  induction l as [|i l IH]; intros HF b b' s' H; inversion H; subst; clear H; auto; inversion HF; subst;
+    try (with_R ltac:(fun Hr => eapply IH; eauto); fail);
+    match goal with Hx : _ /\ _ |- _ => destruct Hx as (Et & f & Hin & Hf) end;
+    match goal with Hg : guard_ok _ _ = true |- _ => rewrite Et, (guard_false _ _ f Hin Hf) in Hg; discriminate end.
+Qed.
+
+(* failures without any effect: fclose of a FILE open for reading, closedir *)
+Definition neutral (i : instr) (s : mstate) : Prop :=
+  i_die i = false /\ i_diag i = false /\ i_set i = [] /\
+  (((exists p, i_op i = Fclose p /\ pend (m_fs s) p = None) /\ i_clear i = [] /\ i_unset i = [])
+   \/ ((exists p, i_op i = Closedir p) /\ i_clear i = i_unset i)).
+
+Lemma neutral_step bufsz fk i s : m_dead s = false -> neutral i s ->
+  step bufsz (Some fk) i s = step bufsz None i s.
+Proof.
+  intros D (N1 & N2 & N3 & [[(p & Ho & Hp) [N4 N5]]|[(p & Ho) N4]]); unfold step; rewrite Ho.
+  - replace (is_failure fk (Fclose p)) with true by (destruct fk; reflexivity).
+    rewrite N1, N2, N3, N4, N5, D, orb_false_r. f_equal.
+    destruct fk; simpl; rewrite Hp; reflexivity.
+  - replace (is_failure fk (Closedir p)) with true by (destruct fk; reflexivity).
+    rewrite N1, N2, N3, N4, D, orb_false_r. f_equal. destruct fk; reflexivity.
+Qed.
+
+Lemma R_nobudget bufsz l : forall s b' s', R bufsz false l s b' s' -> s' = run bufsz None l s /\ b' = false.
+Proof.
+  induction l as [|i l IH]; intros s b' s' H; inversion H; subst; clear H; cbn [run]; auto.
+  - match goal with Hd : m_dead _ = true |- _ => rewrite Hd end; auto.
+  - match goal with Hd : m_dead _ = false, Hg : guard_ok _ _ = false |- _ => rewrite Hd, Hg end. apply IH; auto.
+  - match goal with Hd : m_dead _ = false, Hg : guard_ok _ _ = true |- _ => rewrite Hd, Hg end. apply IH; auto.
+Qed.
+
+(* the relocation under one fault: either it ran as if nothing failed, or FMoveOk is off *)
+Definition keeps (t : Z) (o : op) : Prop :=
+  forall f, touch o = Some (PFile Tmp t f) -> o = Fclose (PFile Tmp t f).
+Definition pendnone (t : Z) (fs : fsys) : Prop := forall f, pend fs (PFile Tmp t f) = None.
+
+Definition nkind (t : Z) (i : instr) : Prop :=
+  i_diag i = false /\ i_set i = [] /\
+  (((exists f, i_op i = Fclose (PFile Tmp t f)) /\ i_clear i = [] /\ i_unset i = [])
+   \/ ((exists p, i_op i = Closedir p) /\ i_clear i = i_unset i)).
+
+Definition reloc_instr (t : Z) (i : instr) : Prop :=
+  i_tid i = t /\ i_die i = false /\ ~ In FMoveOk (i_set i) /\ keeps t (i_op i)
+  /\ is_write (i_op i) = false /\ (In FMoveOk (i_clear i) \/ nkind t i).
+
+Lemma keeps_exec_ok bufsz t o fs : keeps t o -> pendnone t fs ->
+  pendnone t (exec_ok bufsz o fs) /\ forall f, files (exec_ok bufsz o fs) (PFile Tmp t f) = files fs (PFile Tmp t f).
+Proof.
+  intros K P. assert (H : forall f, files (exec_ok bufsz o fs) (PFile Tmp t f) = files fs (PFile Tmp t f)
+                                   /\ pend (exec_ok bufsz o fs) (PFile Tmp t f) = pend fs (PFile Tmp t f)).
+  { intros f. destruct (touch o) as [q|] eqn:E.
+    - destruct (path_eqb q (PFile Tmp t f)) eqn:E2.
+      + apply path_eqb_eq in E2; subst q. rewrite (K f E). simpl. rewrite (P f). auto.
+      + apply exec_ok_frame. rewrite E. intros E3; injection E3 as ->. rewrite path_eqb_refl in E2; discriminate.
+    - apply exec_ok_frame. rewrite E; discriminate. }
+  split; intros f; destruct (H f) as [A B]; auto. rewrite B; apply P.
+Qed.
+
+Lemma keeps_exec_fault bufsz fk t o fs : keeps t o -> pendnone t fs ->
+  pendnone t (exec_fault bufsz fk o fs) /\ forall f, files (exec_fault bufsz fk o fs) (PFile Tmp t f) = files fs (PFile Tmp t f).
+Proof.
+  intros K P. assert (H : forall f, files (exec_fault bufsz fk o fs) (PFile Tmp t f) = files fs (PFile Tmp t f)
+                                   /\ pend (exec_fault bufsz fk o fs) (PFile Tmp t f) = pend fs (PFile Tmp t f)).
+  { intros f. destruct (touch o) as [q|] eqn:E.
+    - destruct (path_eqb q (PFile Tmp t f)) eqn:E2.
+      + apply path_eqb_eq in E2; subst q. rewrite (K f E). destruct fk; simpl; rewrite (P f); auto.
+      + apply exec_fault_frame. rewrite E. intros E3; injection E3 as ->. rewrite path_eqb_refl in E2; discriminate.
+    - apply exec_fault_frame. rewrite E; discriminate. }
+  split; intros f; destruct (H f) as [A B]; auto. rewrite B; apply P.
+Qed.
+
+Lemma keeps_step bufsz fo t i s : keeps t (i_op i) -> pendnone t (m_fs s) ->
+  pendnone t (m_fs (step bufsz fo i s))
+  /\ forall f, files (m_fs (step bufsz fo i s)) (PFile Tmp t f) = files (m_fs s) (PFile Tmp t f).
+Proof.
+  intros K P; unfold step; destruct fo as [fk|]; [destruct (is_failure fk (i_op i))|]; simpl;
+    first [apply keeps_exec_fault; auto | apply keeps_exec_ok; auto].
+Qed.
+
+Lemma R_keeps bufsz t l : Forall (fun i => keeps t (i_op i)) l -> forall b s b' s',
+  R bufsz b l s b' s' -> pendnone t (m_fs s) ->
+  pendnone t (m_fs s') /\ forall f, files (m_fs s') (PFile Tmp t f) = files (m_fs s) (PFile Tmp t f).
+Proof.
+  induction l as [|i l IH]; intros HF b s b' s' H P; inversion H; subst; clear H; auto; inversion HF; subst.
+  - with_R ltac:(fun Hr => eapply IH; eauto).
+  - destruct (keeps_step bufsz None t i s ltac:(assumption) P) as [P1 F1].
+    with_R ltac:(fun Hr => destruct (IH ltac:(assumption) _ _ _ _ Hr P1) as [P2 F2]).
+    split; auto. intros f; rewrite F2; auto.
+  - destruct (keeps_step bufsz (Some fk) t i s ltac:(assumption) P) as [P1 F1].
+    with_R ltac:(fun Hr => destruct (IH ltac:(assumption) _ _ _ _ Hr P1) as [P2 F2]).
+    split; auto. intros f; rewrite F2; auto.
+Qed.
+
+Lemma R_dichotomy bufsz t l : Forall (reloc_instr t) l -> forall s b' s',
+  R bufsz true l s b' s' -> m_dead s = false -> pendnone t (m_fs s) ->
+  s' = run bufsz None l s \/ m_fl s' t FMoveOk = false.
+Proof.
+  induction l as [|i l IH]; intros HF s b' s' H D P; inversion H; subst; clear H; cbn [run]; auto.
+  - congruence.
+  - inversion HF; subst. rewrite D. match goal with Hg : guard_ok _ _ = false |- _ => rewrite Hg end.
+    with_R ltac:(fun Hr => eapply IH; eauto).
+  - inversion HF as [|? ? Hi HF']; subst. rewrite D. match goal with Hg : guard_ok _ _ = true |- _ => rewrite Hg end.
+    destruct Hi as (_ & _ & _ & K & _).
+    with_R ltac:(fun Hr => apply (IH HF' _ _ _ Hr)); [exact D|].
+    apply (keeps_step bufsz None t i s K P).
+  - inversion HF as [|? ? Hi HF']; subst. rewrite D. match goal with Hg : guard_ok _ _ = true |- _ => rewrite Hg end.
+    destruct Hi as (Et & Hd & Hs & K & Hw & [Hc|(N2 & N3 & N4)]).
+    + right.
+      with_R ltac:(fun Hr => eapply (R_flag_stays_false bufsz l t FMoveOk); [|exact Hr|]).
+      * eapply Forall_impl; [|exact HF']. intros a (_ & _ & Ha & _); exact Ha.
+      * unfold step. rewrite (is_failure_nowrite fk _ Hw). simpl. rewrite <- Et. apply setfl_in; auto.
+    + left.
+      assert (N : neutral i s).
+      { split; auto. split; auto. split; auto. destruct N4 as [[(f & Ho) [A B]]|[Ho A]]; [left|right]; auto.
+        split; auto. exists (PFile Tmp t f); split; auto. }
+      with_R ltac:(fun Hr => rewrite (neutral_step bufsz fk i s D N) in Hr; apply R_nobudget in Hr as [-> _]).
+      reflexivity.
+Qed.
+
+(* ------------------------------------------------------------------ the fault-free run executes every call (guards hold) *)
+
+Record F6 := mkF { xin : bool; xout : bool; xcopy : bool; xdopen : bool; xdok : bool; xmove : bool }.
+Definition getF (T : F6) (f : flag) : bool :=
+  match f with FInOpen => xin T | FOutOpen => xout T | FCopyOk => xcopy T
+             | FDirOpen => xdopen T | FDirOk => xdok T | FMoveOk => xmove T end.
+Definition setF (T : F6) (f : flag) (v : bool) : F6 :=
+  match f with
+  | FInOpen => mkF v (xout T) (xcopy T) (xdopen T) (xdok T) (xmove T)
+  | FOutOpen => mkF (xin T) v (xcopy T) (xdopen T) (xdok T) (xmove T)
+  | FCopyOk => mkF (xin T) (xout T) v (xdopen T) (xdok T) (xmove T)
+  | FDirOpen => mkF (xin T) (xout T) (xcopy T) v (xdok T) (xmove T)
+  | FDirOk => mkF (xin T) (xout T) (xcopy T) (xdopen T) v (xmove T)
+  | FMoveOk => mkF (xin T) (xout T) (xcopy T) (xdopen T) (xdok T) v
+  end.
+Definition updT (T : F6) (i : instr) : F6 :=
+  fold_left (fun T f => setF T f false) (i_unset i) (fold_left (fun T f => setF T f true) (i_set i) T).
+Fixpoint gfine (T : F6) (l : list instr) : bool :=
+  match l with [] => true | i :: l' => forallb (getF T) (i_guard i) && gfine (updT T i) l' end.
+Definition endT (T : F6) (l : list instr) : F6 := fold_left updT l T.
+
+Definition agree (T : F6) (fl : flag -> bool) : Prop := forall f, getF T f = true -> fl f = true.
+
+Lemma getF_setF T f v g : getF (setF T f v) g = if flag_eqb g f then v else getF T g.
+Proof. destruct T, f, g; reflexivity. Qed.
+
+Lemma getF_fold_set l : forall T f,
+  getF (fold_left (fun T f => setF T f true) l T) f = existsb (flag_eqb f) l || getF T f.
+Proof.
+  induction l as [|x l IH]; intros T f; simpl; auto.
+  rewrite IH, getF_setF. destruct (flag_eqb f x); simpl; auto. rewrite orb_true_r; auto.
+Qed.
+Lemma getF_fold_unset l : forall T f,
+  getF (fold_left (fun T f => setF T f false) l T) f = negb (existsb (flag_eqb f) l) && getF T f.
+Proof.
+  induction l as [|x l IH]; intros T f; simpl; auto.
+  rewrite IH, getF_setF. destruct (flag_eqb f x); simpl; auto. rewrite andb_false_r; auto.
+Qed.
+
+Lemma agree_set T fl t l : agree T (fl t) -> agree (fold_left (fun T f => setF T f true) l T) (setfl fl t l true t).
+Proof.
+  intros A f Hf. rewrite getF_fold_set in Hf. destruct l as [|x l]; [simpl in Hf; auto|].
+  unfold setfl. rewrite Z.eqb_refl. simpl andb. destruct (existsb (flag_eqb f) (x :: l)); auto.
+Qed.
+
+Lemma agree_unset T fl t l : agree T (fl t) -> agree (fold_left (fun T f => setF T f false) l T) (setfl fl t l false t).
+Proof.
+  intros A f Hf. rewrite getF_fold_unset in Hf. apply andb_true_iff in Hf as [H1 H2].
+  destruct l as [|x l]; [simpl in *; auto|].
+  unfold setfl. rewrite Z.eqb_refl. simpl andb. apply negb_true_iff in H1. rewrite H1. auto.
+Qed.
+
+Lemma run_dead bufsz fi l s : m_dead s = true -> run bufsz fi l s = s.
+Proof. intros D; destruct l; simpl; auto. rewrite D; auto. Qed.
+
+Lemma run_None_app bufsz l1 : forall l2 s, run bufsz None (l1 ++ l2) s = run bufsz None l2 (run bufsz None l1 s).
+Proof.
+  induction l1 as [|i l1 IH]; intros l2 s; cbn [run app]; auto.
+  destruct (m_dead s) eqn:D; [rewrite run_dead; auto|].
+  destruct (guard_ok _ _); apply IH.
+Qed.
+
+Lemma gfine_sound bufsz t l : forall T s, Forall (fun i => i_tid i = t) l -> agree T (m_fl s t) ->
+  m_dead s = false -> gfine T l = true ->
+  m_dead (run bufsz None l s) = false
+  /\ m_fs (run bufsz None l s) = apply_ops bufsz (map i_op l) (m_fs s)
+  /\ agree (endT T l) (m_fl (run bufsz None l s) t).
+Proof.
+  induction l as [|i l IH]; intros T s HT A D G; cbn [run]; [simpl; auto|].
+  inversion HT as [|? ? Et HT']; subst. simpl in G. apply andb_true_iff in G as [G1 G2].
+  rewrite D. replace (guard_ok (m_fl s (i_tid i)) (i_guard i)) with true.
+  2: { symmetry. unfold guard_ok. apply forallb_forall. intros f Hf. apply A.
+       rewrite forallb_forall in G1; auto. }
+  destruct (IH (updT T i) (step bufsz None i s) HT') as (A1 & A2 & A3); auto.
+  { unfold step; simpl. unfold updT. apply agree_unset. apply agree_set. exact A. }
+Qed.
+
+Lemma gfine_app T l1 : forall l2, gfine T (l1 ++ l2) = gfine T l1 && gfine (endT T l1) l2.
+Proof.
+  revert T; induction l1 as [|i l1 IH]; intros T l2; simpl; auto.
+  rewrite IH, andb_assoc. reflexivity.
+Qed.
+Lemma endT_app T l1 l2 : endT T (l1 ++ l2) = endT (endT T l1) l2.
+Proof. unfold endT; apply fold_left_app. Qed.
+
+Definition simple (T : F6) (i : instr) : Prop :=
+  i_set i = [] /\ i_unset i = [] /\ forallb (getF T) (i_guard i) = true.
+
+Lemma gfine_simple T l : Forall (simple T) l -> gfine T l = true /\ endT T l = T.
+Proof.
+  induction 1 as [|i l (S1 & S2 & S3) _ [IH1 IH2]]; simpl; auto.
+  unfold endT in *; simpl. unfold updT; rewrite S1, S2; simpl. rewrite S3, IH1, IH2; auto.
+Qed.
